@@ -44,7 +44,7 @@ def main():
         for rel in sorted(missing):
             f.write("## %s\n\n" % rel)
             for d in sorted(missing[rel]):
-                f.write("- `%s`\n" % d[:200])
+                f.write("- `%s`\n" % d)
             f.write("\n")
     for rel in sorted(missing):
         print("==", rel)
